@@ -27,8 +27,8 @@ pub fn spec_for(prop: &str) -> Spec {
 
 pub fn run(args: &Args) -> i32 {
     let mut report = Report::new(args, spec_for(&args.prop));
-    let histories_per_shard = args.tier.pick(2u64, 12);
-    let steps = scaled(args, args.tier.pick(1500, 8000));
+    let histories_per_shard = args.tier.pick(3u64, 24);
+    let steps = scaled(args, args.tier.pick(3000, 10_000));
     let budget = Duration::from_secs(budget_secs(args.tier, 60, 900));
     report.run_shards(1, args.threads, budget, |i, rng, shard| {
         for h in 0..histories_per_shard {
